@@ -100,7 +100,7 @@ func runC12(c *Ctx) {
 	// type specifiers of one to four parts over a pool of namespace / type / element / unknown names:
 	// the verdict of Compile (`1 is <parts>`) against the model's resolution
 	{
-		words := []string{"FHIR", "System", "Patient", "Integer", "string", "String", "HumanName", "Quantity", "Foo", "name", "value", "code", "Any", "integer", "Element", "Resource"}
+		words := []string{"fhir", "system", "Fhir", "SYSTEM", "FHIR", "System", "Patient", "Integer", "string", "String", "HumanName", "Quantity", "Foo", "name", "value", "code", "Any", "integer", "Element", "Resource"}
 		emitSpec := func(parts []string) {
 			src := "1 is " + strings.Join(parts, ".")
 			_, err := fhirpath.Compile(src)
@@ -128,7 +128,11 @@ func runC12(c *Ctx) {
 	}
 	// a type specifier has one or two parts: anything longer names no type and is rejected by Compile
 	for _, src := range []string{"1 is System.Integer.value", "Patient is FHIR.Patient.name", "Patient.name[0] as FHIR.HumanName.given", "1 is a.b.c", "1.is(System.Integer.value)",
-		"1.as(System.Integer.value)", "Patient is FHIR.Patient.name.given", "1 is System.System.Integer", "Patient is FHIR.FHIR.Patient", "1 is Integer.System", "'s' as System.String.length"} {
+		"1.as(System.Integer.value)", "Patient is FHIR.Patient.name.given", "1 is System.System.Integer", "Patient is FHIR.FHIR.Patient", "1 is Integer.System", "'s' as System.String.length",
+		// namespaces and type names are case-sensitive; `as`, `is`, `is()` and `as()` reject the same specifiers
+		"Patient is fhir.Patient", "1 is system.Integer", "Patient.active as fhir.boolean", "1 is SYSTEM.Integer", "Patient is Fhir.Patient", "1 is System.integer", "Patient is FHIR.patient", "1 is integer.System",
+		"Patient as Hospital", "Patient as patient", "Patient.gender as Code", "Patient.active as FHIR.Boolean", "1 as System.Patient", "Patient as Enrichments.Patient", "Patient as FHIR.Patient.name", "Patient.as(Hospital)", "Patient.is(Hospital)",
+		"1 as Strin", "Patient.name as humanName", "Patient.name.ofType(Hospital).exists() or (Patient as Hospital).exists()"} {
 		_, err := fhirpath.Compile(src)
 		c.Observe("qualifier-count "+src, true)
 		c.Law(err != nil, "C12/unknown-type-accepted", "a type specifier that names no type is rejected by Compile", src, "compiled")
@@ -298,6 +302,71 @@ func runC12(c *Ctx) {
 			}
 		}
 		sweep(mts)
+		// the type of an element REACHED BY NAVIGATION is the type declared at that position of the schema: a message
+		// with every message-valued element present, each element stepped into by name and tested against the own type
+		// name of the child the schema puts there (types with look-alike sibling names such as min / minValue always,
+		// the others on a rotating sample in the quick tier)
+		for ti, mt := range mts {
+			d := mt.Descriptor()
+			fields := d.Fields()
+			collide := false
+			for j := 0; j < fields.Len(); j++ {
+				if fields.ByName(fields.Get(j).Name()+"_value") != nil {
+					collide = true
+				}
+			}
+			if !c.thorough && !collide && (ti+int(c.seed))%11 != 0 {
+				continue
+			}
+			m := mt.New()
+			kids := map[int]proto.Message{}
+			for j := 0; j < fields.Len(); j++ {
+				f2 := fields.Get(j)
+				if f2.Kind() != protoreflect.MessageKind || f2.IsMap() || f2.ContainingOneof() != nil {
+					continue
+				}
+				ch := m.NewField(f2)
+				var cm protoreflect.Message
+				if f2.IsList() {
+					cm = ch.List().NewElement().Message()
+					ch.List().Append(protoreflect.ValueOfMessage(cm))
+				} else {
+					cm = ch.Message()
+				}
+				m.Set(f2, ch)
+				cd := cm.Descriptor()
+				if cd.Name() == "ContainedResource" || cd.FullName() == "google.protobuf.Any" || cd.Name() == "Xhtml" || cd.Name() == "ReferenceId" || (cd.Oneofs().Len() > 0 && cd.Fields().Len() == cd.Oneofs().Get(0).Fields().Len()) {
+					continue
+				}
+				kids[j] = cm.Interface()
+			}
+			for j := 0; j < fields.Len(); j++ {
+				kid, ok := kids[j]
+				if !ok {
+					continue
+				}
+				facts := typeFacts(kid)
+				own := strings.Split(facts, ":")[1]
+				for _, t := range []string{own, strings.ToLower(own[:1]) + own[1:], "code", "BackboneElement", "Element"} {
+					src := "%x." + fpName(fields.Get(j).JSONName()) + " is " + t
+					e, err := fhirpath.Compile(src)
+					out := "compile-err"
+					if err == nil {
+						o := safeEval(func() (system.Collection, error) { return e.Evaluate(input, evalopts.EnvVariable("x", m.Interface())) })
+						switch {
+						case o.Panicked:
+							out = "panic"
+						case o.Err != nil:
+							out = "err:" + errClass(o.Err)
+						default:
+							out = "ok:" + boolAbs(o.Coll)
+						}
+					}
+					c.Emit("is "+facts+" - "+t, out, true)
+					c.Count("navigated-type")
+				}
+			}
+		}
 		rev := make([]protoreflect.MessageType, len(mts))
 		for i, mt := range mts {
 			rev[len(mts)-1-i] = mt
